@@ -599,7 +599,25 @@ fn one_case(ctx: &Ctx, stream: &str, idx: usize, id: String, hostile: bool) -> C
                 let n = read_size(&mut rng);
                 let mut buf = vec![0u8; n];
                 let nt0 = sim.begin(Mode::RxWait, &mut rng, hostile);
+                // data is pending, so this call returns it without waiting; should it hand the receive
+                // buffer back to the device on the way, a device that reacts to the notification at once
+                // refills it before the call returns — whatever is delivered then must still come out
+                // exactly once, in order
+                let armed = !hostile && sim.returned < sim.dev.borrow().pos && rng.chance(1, 2);
+                if armed {
+                    let mut d = sim.dev.borrow_mut();
+                    let m = chunk_len(&mut rng, d.cap);
+                    d.notify_fill = Some((m, m as u32));
+                    d.raise_isr = false;
+                }
                 let r = guarded(|| Read::read(&mut con, &mut buf));
+                if armed {
+                    let mut d = sim.dev.borrow_mut();
+                    d.notify_fill = None;
+                    if d.notify_filled.take().is_some() {
+                        sim.case.tag("device_filled_inside_read");
+                    }
+                }
                 let sc = sim.script();
                 if let Ok(Ok(k)) = &r {
                     let k = *k;
@@ -877,6 +895,37 @@ fn one_case(ctx: &Ctx, stream: &str, idx: usize, id: String, hostile: bool) -> C
             let pos = sim.dev.borrow().pos;
             if sim.returned != pos {
                 sim.case.fail(format!("after draining, {} bytes returned but the device wrote {} (bytes lost)", sim.returned, pos));
+            }
+        }
+        if !sim.dead && sim.honest && !hostile && idx % 100 == 7 {
+            // long-run epilogue (oracles only): 66 000 more one-byte chunks, each delivered and read at once;
+            // the 16-bit ring indices of the receive queue wrap on the way and nothing may be lost
+            sim.case.tag("long-run");
+            for j in 0..66_000u32 {
+                {
+                    let mut d = sim.dev.borrow_mut();
+                    d.mode = Mode::RxWait;
+                    d.spins = 0;
+                    d.idle_left = 0;
+                    d.op_idle = 0;
+                    d.op_fill = None;
+                    d.plan_fill = 1;
+                    d.plan_claim = 1;
+                    d.raise_isr = false;
+                }
+                let mut one = [0u8; 1];
+                let r = guarded(|| Read::read(&mut con, &mut one));
+                sim.dev.borrow_mut().mode = Mode::Idle;
+                match r {
+                    Ok(Ok(1)) => sim.expect_stream("read", &one, true),
+                    other => {
+                        sim.case.fail(format!("long run: blocking one-byte read number {} returned {:?} (the device delivers one byte per request)", j, other.map(|r| r.map_err(|e| format!("{:?}", e)))));
+                        break;
+                    }
+                }
+                if !sim.case.oracle_failures.is_empty() {
+                    break;
+                }
             }
         }
         if !sim.dead {
